@@ -113,6 +113,7 @@ pub struct Interp {
     pub log: Vec<i64>,
     pub counters: Counters,
     budget: u64,
+    depth: u32,
     /// names captured by some closure, for the capture-then-redeclare counter
     captured_names: Vec<String>,
     cell_writers: BTreeMap<usize, u64>,
@@ -176,7 +177,7 @@ pub fn rv_eq(a: &RVal, b: &RVal) -> R<bool> {
 
 impl Interp {
     pub fn new(budget: u64) -> Self {
-        Self { log: vec![], counters: Counters::default(), budget, captured_names: vec![], cell_writers: BTreeMap::new() }
+        Self { log: vec![], counters: Counters::default(), budget, depth: 0, captured_names: vec![], cell_writers: BTreeMap::new() }
     }
 
     fn step(&mut self) -> R<()> {
@@ -269,8 +270,16 @@ impl Interp {
                 "^" => RVal::Bool(*x ^ *y),
                 _ => return Err(Stop::Unsupported(format!("bool {op}"))),
             },
-            ("+", RVal::Str(x), RVal::Str(y)) => RVal::Str(format!("{x}{y}").into()),
+            ("+", RVal::Str(x), RVal::Str(y)) => {
+                if x.len() + y.len() > 1 << 20 {
+                    return Err(Stop::Budget);
+                }
+                RVal::Str(format!("{x}{y}").into())
+            }
             ("+", RVal::Arr(x), RVal::Arr(y)) => {
+                if x.len() + y.len() > 1 << 18 {
+                    return Err(Stop::Budget);
+                }
                 let mut v = (**x).clone();
                 v.extend(y.iter().cloned());
                 RVal::Arr(Rc::new(v))
@@ -282,6 +291,18 @@ impl Interp {
     // ---------- calls and iterators ----------
 
     pub fn call(&mut self, f: &RVal, args: Vec<RVal>) -> R<RVal> {
+        // runaway recursion is a generator accident, not a subject: give up early (and keep the
+        // native stack shallow)
+        if self.depth > 200 {
+            return Err(Stop::Budget);
+        }
+        self.depth += 1;
+        let r = self.call_inner(f, args);
+        self.depth -= 1;
+        r
+    }
+
+    fn call_inner(&mut self, f: &RVal, args: Vec<RVal>) -> R<RVal> {
         self.step()?;
         self.counters.calls += 1;
         let RVal::Fun(clo) = f else {
